@@ -183,6 +183,11 @@ theorem Stat.cancelKindFor_fst {w0 w : World} (h : Stat w0 w) (p : Pid) (act : N
   unfold Sim.cancelKindFor
   exact Stat.foldl (fun w q => by stat) _ h
 macro_rules | `(tactic| stat_step) => `(tactic| with_reducible apply Stat.cancelKindFor_fst)
+theorem Stat.cancelUserAll_fst {w0 w : World} (h : Stat w0 w) :
+    Stat w0 (cancelUserAll w).1 := by
+  unfold Sim.cancelUserAll
+  exact Stat.foldl (fun w q => by stat) _ h
+macro_rules | `(tactic| stat_step) => `(tactic| with_reducible apply Stat.cancelUserAll_fst)
 
 theorem Stat.recordRes {w0 w : World} (h : Stat w0 w) (r : Nat) : Stat w0 (recordRes w r) := by
   unfold Sim.recordRes; stat
